@@ -363,7 +363,7 @@ PROPS = {
     "C15": dict(
         tables=[],
         audit_modules=["RodbusModel.Audit.C15", "RodbusModel.Audit.C15Net"],
-        required_theorems=["Rodbus.C15.tracker_bound", "Rodbus.C15.evicts_oldest", "Rodbus.C15.remove_absent",
+        required_theorems=["Rodbus.C15Net.pipeline_answer", "Rodbus.C15Net.churn_keeps_sessions", "Rodbus.C15Net.burst_order_irrelevant", "Rodbus.C15.tracker_bound", "Rodbus.C15.evicts_oldest", "Rodbus.C15.remove_absent",
                            "Rodbus.C15.fresh_id", "Rodbus.C15Net.open_bound", "Rodbus.C15Net.isolation",
                            "Rodbus.C15Net.shutdown_closes_all", "Rodbus.C15Net.evicted_is_oldest",
                            "Rodbus.C15Net.refused_after_shutdown"],
@@ -425,7 +425,7 @@ PROPS = {
         suites=[dict(gen="srv_tcp", n=(2500, 150000),
                      exhaustive="MBAP: every function byte 0..255 x payload lengths {0,1,3,4,5,6} (0..12 thorough) x {configured, unconfigured} unit; "
                                 "quantity x start boundary lattice for the six ranged functions"),
-                dict(gen="srv_rtu", n=(1500, 100000), exhaustive="RTU: quantity x start boundary lattice")],
+                dict(gen="srv_rtu", n=(1500, 100000), exhaustive="RTU: quantity x start boundary lattice"), dict(gen="net", n=(6, 200), jobs=16)],
         level_text="Proof: handleFrame_eq_spec - the model of SessionTask::handle_frame (cursor-style parser, getter loops, exception fallback, "
                    "authorization, unit dispatch, broadcast) equals the declarative reference server Spec.Server.respond for EVERY configuration, "
                    "handler state machine, unit map, framing and frame (no well-formedness hypothesis), lifted to sessions (runFrames_eq_spec, "
@@ -497,7 +497,7 @@ PROPS = {
     "C09": dict(
         tables=['tls_versions'],
         audit_modules=["RodbusModel.Audit.C09"],
-        required_theorems=["Rodbus.C09.versions_correct", "Rodbus.C09.tls_table_correct", "Rodbus.C09.admit_iff",
+        required_theorems=["Rodbus.C09.admission_history_independent", "Rodbus.C09.role_is_own_role_after_any_history", "Rodbus.C09.versions_correct", "Rodbus.C09.tls_table_correct", "Rodbus.C09.admit_iff",
                            "Rodbus.C09.client_admit_iff", "Rodbus.C09.role_is_certificate_role", "Rodbus.C09.no_role_refused",
                            "Rodbus.C09.negotiated_at_least_min", "Rodbus.C09.negotiation_succeeds",
                            "Rodbus.C09.role_is_end_entity_role", "Rodbus.C09.roleless_end_entity_refused"],
@@ -536,7 +536,7 @@ PROPS = {
                            "Rodbus.no_spurious_eof", "Rodbus.C06.no_spurious_eof", "Rodbus.C06.peek_in_bounds"],
         suites=[dict(gen="srv_fuzz", n=(3000, 400000)), dict(gen="rdr_fuzz", n=(3000, 400000)),
                 dict(gen="cl_fuzz", n=(800, 100000)),
-                dict(gen="srv_tcp", n=(800, 50000)), dict(gen="srv_rtu", n=(800, 50000))],
+                dict(gen="srv_tcp", n=(800, 50000)), dict(gen="srv_rtu", n=(800, 50000)), dict(gen="net", n=(6, 200), jobs=16)],
         level_text="Proof for the modelled logic: bounds at the arithmetic/indexing sites mirrored from the Rust code (range_addresses_fit, "
                    "indexed_indices_fit, mbap_length_field_fits, byte_counts_fit, read_buffer_indices_in_bounds, peek_in_bounds, "
                    "reply_fits_writer), no internal error and no spurious EOF in any reachable reader state of either framer (so nothing can be "
